@@ -4541,6 +4541,9 @@ KNOWN_EXT:
             /* A required extension within a CRL.  Our getSerialNum is
                 the version of getInteger that allows very large
                 numbers.  Spec says this could be 20 octets long */
+            /* Extension may be repeated: drop the earlier value */
+            psFree(extensions->crlNum, pool);
+            extensions->crlNum = NULL;
             if (getSerialNum(pool, &p, (int32) (extEnd - p),
                     &(extensions->crlNum), &len) < 0)
             {
@@ -4696,6 +4699,8 @@ KNOWN_EXT:
                     psTraceCrypto("Error keyLen in authKeyId extension\n");
                     return PS_PARSE_FAIL;
                 }
+                /* Extension may be repeated: drop the earlier value */
+                psFree(extensions->ak.keyId, pool);
                 extensions->ak.keyId = psMalloc(pool, extensions->ak.keyLen);
                 if (extensions->ak.keyId == NULL)
                 {
@@ -4743,6 +4748,9 @@ KNOWN_EXT:
 /*
                     Treat as a serial number (not a native INTEGER)
  */
+                /* Extension may be repeated: drop the earlier value */
+                psFree(extensions->ak.serialNum, pool);
+                extensions->ak.serialNum = NULL;
                 if (getSerialNum(pool, &p, (int32) (extEnd - p),
                         &(extensions->ak.serialNum), &len) < 0)
                 {
@@ -4767,6 +4775,8 @@ KNOWN_EXT:
                 psTraceCrypto("Error parsing subjectKeyId extension\n");
                 return PS_PARSE_FAIL;
             }
+            /* Extension may be repeated: drop the earlier value */
+            psFree(extensions->sk.id, pool);
             extensions->sk.id = psMalloc(pool, extensions->sk.len);
             if (extensions->sk.id == NULL)
             {
